@@ -48,7 +48,19 @@ def run(ctx):
             k = rng.choice(keys)
             unsigned.append(f'sxg.sign {exs(e)} {rs} {k["cert"]} {k["key"]} {hexs(certurl)} {hexs(vurl)} {date} {expires}')
             meta.append(k)
+    # F14 regression: digest header already present with an empty value must be refused by MiEncodePayload
+    for ver in VERS:
+        dn = b'MI-Draft2' if ver == 'b1' else b'Digest'
+        e = ex(ver, b'https://example.com/', b'GET', [], 200, [(b'Content-Type', [b'text/html']), (dn, [b''])], b'', b'hello world')
+        unsigned.append(f'sxg.sign {exs(e)} 16 {keys[0]["cert"]} {keys[0]["key"]} {hexs(certurl)} {hexs(vurl)} {date} {expires}')
+        meta.append(keys[0])
     res = ctx.go(unsigned)
+    f14 = res[-3:]
+    if any(r and r.startswith('ok ') for r in f14):
+        # the library agreed to sign: the result must verify (property C02); record as a compared pseudo-op
+        for r in f14:
+            if r and r.startswith('ok '):
+                ctx.records.append(('sxg.sign-with-empty-digest-header must be refused or verify', 'signed', 'refused'))
     signed = []
     for r, k in zip(res, meta):
         e = parse_ex(r) if r else None
